@@ -1,0 +1,209 @@
+//go:build verif
+
+package scheduler
+
+import (
+	"context"
+	"errors"
+	"fmt"
+	"math/rand"
+	"runtime"
+	"sync"
+	"sync/atomic"
+	"time"
+
+	"go.uber.org/multierr"
+)
+
+// Verification hooks: a per-scheduler event recorder and a seeded schedule
+// perturbation. Only compiled with the "verif" build tag.
+
+const verifOn = true
+
+// VerifRecorder collects the events of one scheduler.
+// Pass it in Config.Verif.
+type VerifRecorder struct {
+	mu     sync.Mutex
+	Lines  []string
+	nextID int64
+
+	// Perturbation: when Perturb > 0, each hook site yields or sleeps
+	// with probability Perturb/100, driven by Seed.
+	Perturb int
+	Seed    int64
+	rng     *rand.Rand
+}
+
+type verifConfig = *VerifRecorder
+
+type verifSched struct {
+	rec *VerifRecorder
+}
+
+type verifJob struct {
+	rec *VerifRecorder
+	id  int
+}
+
+// VerifErr is implemented by harness errors that carry an identity.
+type VerifErr interface{ VerifID() int }
+
+func verifClass(err error) string {
+	if err == nil {
+		return "ok"
+	}
+	if errors.Is(err, errJobInvalid) {
+		return "invalid"
+	}
+	if errors.Is(err, context.Canceled) || errors.Is(err, context.DeadlineExceeded) {
+		return "ctx"
+	}
+	var ve VerifErr
+	if errors.As(err, &ve) {
+		return fmt.Sprintf("fail:%d", ve.VerifID())
+	}
+	if err.Error() == "job exited unexpectedly" {
+		return "exit"
+	}
+	return "other"
+}
+
+func (r *VerifRecorder) add(format string, args ...interface{}) {
+	if r == nil {
+		return
+	}
+	r.mu.Lock()
+	r.Lines = append(r.Lines, fmt.Sprintf(format, args...))
+	r.mu.Unlock()
+}
+
+// Add records a harness-side line in the same total order.
+func (r *VerifRecorder) Add(line string) { r.add("%s", line) }
+
+// Snapshot returns a copy of the lines recorded so far.
+func (r *VerifRecorder) Snapshot() []string {
+	r.mu.Lock()
+	defer r.mu.Unlock()
+	return append([]string(nil), r.Lines...)
+}
+
+func verifJobID(j *ScheduledJob) int {
+	if j == nil {
+		return -1
+	}
+	return j.verif.id
+}
+
+func (v *verifSched) init(s *Scheduler, c Config) {
+	v.rec = c.Verif
+	coe := 0
+	if c.ContinueOnError {
+		coe = 1
+	}
+	emit := 0
+	if c.Emitter != nil {
+		emit = 1
+	}
+	v.rec.add("cfg %d %d %d %d %d %d", c.Concurrency, coe, emit, cap(s.enqueuec), cap(s.readyc), cap(s.donec))
+}
+
+func (v *verifSched) send(j *ScheduledJob) {
+	if v.rec == nil {
+		return
+	}
+	j.verif.rec = v.rec
+	j.verif.id = int(atomic.AddInt64(&v.rec.nextID, 1) - 1)
+	line := fmt.Sprintf("C send %d", j.verif.id)
+	for _, d := range j.deps {
+		line += fmt.Sprintf(" %d", verifJobID(d))
+	}
+	v.rec.add("%s", line)
+	v.yield("enqueue")
+}
+
+func (v *verifSched) sent(j *ScheduledJob) { v.rec.add("C sent %d", verifJobID(j)) }
+func (v *verifSched) closed()              { v.rec.add("C close") }
+func (v *verifSched) ret(arm string, err error) {
+	v.rec.add("C ret %s %s", arm, verifErrList(err))
+}
+
+// verifErrList renders an error as the comma-separated classes of its
+// multierr entries ("nil" for no error).
+func verifErrList(err error) string {
+	if err == nil {
+		return "nil"
+	}
+	errs := multierr.Errors(err)
+	out := ""
+	for i, e := range errs {
+		if i > 0 {
+			out += ","
+		}
+		out += verifClass(e)
+	}
+	return out
+}
+
+func (v *verifSched) loop(arm string, j *ScheduledJob, err error, pending, ongoing, waiting, ready int, enqNil bool) {
+	if v.rec == nil {
+		return
+	}
+	n := 0
+	if enqNil {
+		n = 1
+	}
+	v.rec.add("L %s %d %s %d %d %d %d %d", arm, verifJobID(j), verifClass(err), pending, ongoing, waiting, ready, n)
+}
+
+func (v *verifSched) tick(st State) {
+	v.rec.add("L tick %d %d %d %d %d", st.Pending, st.Ready, st.Waiting, st.IdleWorkers, st.Concurrency)
+}
+
+func (v *verifSched) yield(site string) { v.rec.yield(site) }
+
+func (r *VerifRecorder) yield(site string) {
+	if r == nil || r.Perturb <= 0 {
+		return
+	}
+	r.mu.Lock()
+	if r.rng == nil {
+		r.rng = rand.New(rand.NewSource(r.Seed))
+	}
+	x := r.rng.Intn(100)
+	y := r.rng.Intn(4)
+	r.mu.Unlock()
+	if x >= r.Perturb {
+		return
+	}
+	switch y {
+	case 0:
+		time.Sleep(time.Duration(1+x%20) * time.Microsecond)
+	default:
+		for i := 0; i <= y; i++ {
+			runtime.Gosched()
+		}
+	}
+}
+
+var verifWorkerSeq int64
+
+func verifWorkerID() int { return int(atomic.AddInt64(&verifWorkerSeq, 1)) }
+
+func verifWorker(wid int, what string, j *ScheduledJob, err error) {
+	if j == nil || j.verif.rec == nil {
+		return
+	}
+	r := j.verif.rec
+	switch what {
+	case "recv":
+		r.add("W %d recv %d", wid, j.verif.id)
+		r.yield("recv")
+	case "post":
+		// About to send on donec.
+		r.yield("post")
+		r.add("W %d post %d %s", wid, j.verif.id, verifClass(err))
+	default:
+		// skipctx, skipinvalid, start, end, die
+		r.add("W %d %s %d %s", wid, what, j.verif.id, verifClass(err))
+	}
+}
